@@ -19,3 +19,28 @@ Print Assumptions C10_code_is_unavailable.
 Theorem C10_tunnel_stays_up : forall ls t, trun tun0 ls = Some t -> t_err t = false.
 Proof. exact no_rpc_event_kills_the_tunnel. Qed.
 Print Assumptions C10_tunnel_stays_up.
+
+(* the reverse-tunnel server's shutdown state machine, with the guards regenerated from the source:
+   once GracefulStop or Stop has been called the server is closing for ever (whatever operations
+   follow), and a Stop that was not preceded by a Stop ends every tunnel still tracked *)
+From Coq Require Import String.
+From GT Require Import RevServer.
+From GTgen Require Import Params.
+Local Open Scope string_scope.
+Theorem C10_reverse_server_guards : 
+  rs_states = ["stateActive"; "stateClosing"; "stateClosed"] /\
+  rs_guards = [("isClosing", "s.state >= stateClosing"); ("isClosed", "s.state >= stateClosed");
+               ("addInstance", "s.state >= stateClosing"); ("Stop", "s.state == stateClosed");
+               ("GracefulStop", "s.state != stateActive")].
+Proof. exact rs_shape. Qed.
+Print Assumptions C10_reverse_server_guards.
+
+Theorem C10_reverse_server_closing_forever : forall s o ops,
+  (o = OStop \/ o = OGraceful) -> is_closing (rs_run (rs_step s o) ops) = true.
+Proof. exact after_shutdown_always_closing. Qed.
+Print Assumptions C10_reverse_server_closing_forever.
+
+Theorem C10_stop_after_graceful_ends_tunnels : forall s, rs_state s <> Closed ->
+  rs_open (rs_step s OStop) = [] /\ forall t, In t (rs_open s) -> In t (rs_told (rs_step s OStop)).
+Proof. exact stop_ends_every_tracked_tunnel. Qed.
+Print Assumptions C10_stop_after_graceful_ends_tunnels.
